@@ -201,6 +201,10 @@ func c07NumHGen(r *Rand, tier string) []string {
 		}
 	}
 	rec(nil)
+	// … and over {NaN, -0, +0, 1, Analyze} up to depth-1 calls: NaN sorts first (last with Reverse), the zeros are one value
+	alpha = []string{"7ff8000000000001", "8000000000000000", "0000000000000000", c07HBits(1), "a"}
+	depth--
+	rec(nil)
 	// long histories with a refresh every few dozen samples
 	for i := 0; i < nl; i++ {
 		m := r.Range(150, 400)
